@@ -1,1 +1,2 @@
 //! shared helpers for the relay monitors
+pub mod proto_util;
